@@ -213,8 +213,84 @@ def dyn_items(tier):
 
 # ------------------------------------------------------------------------------------------------
 
+# ------------------------------------------------------------------------------------------------
+# mean-field TEMPO with SEVERAL systems whose baths have DIFFERENT coupling operators (per-bath degeneracy data)
+
+MF_MULTI = [
+    ((0.0, 1.0), (0.5, -0.5)),
+    ((1.0, 1.0, 0.0), (1.0, 0.0, 0.0)),
+    ((0.5, -0.5), (1.0, 1.0, 0.0)),
+    ((1.0, 0.0, 0.0), (0.0, 1.0), (1.0, 1.0, -1.0)),
+]
+
+
+def mf_multi_case(args):
+    idx, order, mem, basis = args
+    evs = [MF_MULTI[idx][i] for i in order]
+    import oqupy as oq
+    from . import models as M_
+    systems, baths, states = [], [], []
+    for k, ev in enumerate(evs):
+        d = len(ev)
+        v = M_.generic_unitary(d, 11 + k) if basis == "nondiag" else np.eye(d, dtype=complex)
+        op = (v * np.array(ev)) @ v.conj().T
+        h0 = M_.generic_herm(d, 3 + k, 0.6)
+        h1 = M_.generic_herm(d, 5 + k, 0.4)
+        systems.append(oq.TimeDependentSystemWithField(lambda t, a, h0=h0, h1=h1: h0 + np.real(a) * h1))
+        baths.append(oq.Bath(op, oq.PowerLawSD(alpha=0.4, zeta=1.0, cutoff=3.0, cutoff_type="exponential", temperature=0.3 + 0.2 * k)))
+        states.append(M_.generic_state(d, 2 + k))
+    mfs = oq.MeanFieldSystem(systems, lambda t, st, a: -0.2 * a - 0.3j * sum(s[0, -1] for s in st))
+    kw = {"dkmax": None} if mem == "full" else {"dkmax": 2, "add_correlation_time": 0.3}
+    prm = oq.TempoParameters(dt=0.2, epsrel=EPS, subdiv_limit=None, **kw)
+    out = {}
+    for unique in (False, True):
+        def go():
+            d_ = oq.MeanFieldTempo(mfs, baths, prm, states, 0.4 + 0.1j, start_time=0.0, unique=unique).compute(
+                5.4 * 0.2, progress_type="silent")
+            return [np.array(sd.states) for sd in d_.system_dynamics], np.array(d_.fields)
+        for attempt in range(6):
+            try:
+                out[unique] = go()
+                break
+            except np.linalg.LinAlgError:
+                continue
+            except Exception as ex:  # noqa
+                return {"cls": f"mf-multi|{len(evs)}-systems-different-couplings|{basis}|{mem}|exception:{type(ex).__name__}"
+                               f"(unique={unique})", "what": f"couplings {evs}: {ex}"[:200], "dev": None, "move": 0.0}
+        else:
+            return {"cls": "mf-multi|lapack-svd-did-not-converge-6-times", "what": str(args), "dev": None, "move": 0.0}
+    dev = max(max(np.abs(a - b).max() for a, b in zip(out[True][0], out[False][0])), np.abs(out[True][1] - out[False][1]).max())
+    move = max(np.abs(s - s[0]).max() for s in out[False][0])
+    cls = None
+    if dev > tol(EPS):
+        cls = f"mf-multi|{len(evs)}-systems-different-couplings|{basis}|{mem}|state-mismatch"
+    return {"cls": cls, "what": f"couplings {evs} basis={basis} memory={mem}: unique on/off differ by {dev:.2e}", "dev": dev,
+            "move": float(move)}
+
+
+def mf_multi_cases():
+    import itertools as it
+    out = []
+    for idx, evs in enumerate(MF_MULTI):
+        for order in it.permutations(range(len(evs))):
+            for mem in ("full", "dkmax2+tau"):
+                for basis in ("diag", "nondiag"):
+                    out.append((idx, order, mem, basis))
+    return out
+
+
 def run(tier, seed):
     rep = Report(LEVEL)
+    mmc = mf_multi_cases()
+    mmr = pmap(mf_multi_case, mmc, seed=seed)
+    mm_nontrivial = 0
+    mm_maxdev = 0.0
+    for c, r in zip(mmc, mmr):
+        if r["cls"]:
+            rep.add(Violation(r["cls"], r["what"], {"part": "mfmulti", "args": [c[0], list(c[1]), c[2], c[3]]}))
+        if r["dev"] is not None:
+            mm_maxdev = max(mm_maxdev, r["dev"])
+            mm_nontrivial += int(r["move"] > 0.01)
     mcases = map_cases()
     mres = pmap(map_case, mcases, seed=seed)
     map_patterns = set()
@@ -268,8 +344,10 @@ def run(tier, seed):
                 "bath_influence": r["infl"], "blocked": r["blocked"], "violation": r["cls"]}
                for r in (flat[0], flat[len(flat) // 2], flat[-1])]
     rep.coverage = {
-        "evaluations": len(mcases) + n_eval,
+        "evaluations": len(mcases) + n_eval + len(mmc),
         "distinct_nontrivial": len(keys) + len(map_patterns),
+        "mean_field_multi_system": {"cases": len(mmc), "nontrivial": mm_nontrivial, "max_dev": mm_maxdev,
+                                    "rule": "2-3 systems with different coupling operators, all orders x memory x basis"},
         "map_level": {"cases": len(mcases), "blocked_by_bath_exception": map_blocked,
                       "distinct_patterns_with_north_reduction": len(map_patterns), "dims": [2, 3, 4, 5],
                       "alphabet": list(ALPHABET), "scales": list(MAP_SCALES), "bases": ["diag", "perm", "nondiag"]},
@@ -310,6 +388,10 @@ def run(tier, seed):
 
 
 def replay(rp):
+    if rp.get("part") == "mfmulti":
+        a = rp["args"]
+        r = mf_multi_case((a[0], tuple(a[1]), a[2], a[3]))
+        return {"obs": {"dev": None if r["dev"] is None else round(r["dev"], 10)}, "violation": r["cls"]}
     if rp["part"] == "maps":
         r = map_case((tuple(rp["ev"]), rp["scale"], rp["basis"]))
         return {"obs": {"cls": r["cls"], "what": r["what"], "blocked": r["blocked"]}, "violation": r["cls"]}
